@@ -31,6 +31,9 @@ def stripL : Str → Str
 
 def strip (s : Str) : Str := (stripL (stripL s).reverse).reverse
 
+/-- `str.rstrip()` -/
+def stripR (s : Str) : Str := (stripL s.reverse).reverse
+
 /-- digits with single underscores between them: `1_000` (Python's numeric literal grouping, accepted by `float`) -/
 def digitsU : Str → Bool
   | [] => false
@@ -95,6 +98,39 @@ def decodeLine (sep : Char) (line : Str) : Option (Str × Str) :=
   match splitOn sep (strip line) with
   | [k, v] => some (k, v)
   | _ => none
+
+/-! ### the metadata block of a CSV document
+
+reader (parsing/csv.py): `line = readline().rstrip()`; `while not (line.startswith('data') or line.startswith('model') or line == "")`:
+`line.strip().split(sep)` must be exactly `key, value`, else `ParsingError`; then the next line.  `readline()` at the end of the
+document gives `''`, which ends the loop like an empty line.  The writer puts one `key<sep>value\n` per entry — a value that
+contains a line break therefore occupies several LINES of the document. -/
+
+inductive MetaRead
+  | refused                                                -- some line is not `key<sep>value`: `ParsingError`
+  | read (entries : List (Str × Str)) (rest : List Str)    -- entries read; the lines from the one that ended the loop on (`[]`: end of document)
+  deriving DecidableEq, Repr
+
+/-- the loop's stop test on a line already `rstrip`ped -/
+def stopsAt (stops : List Str) (line : Str) : Bool := stops.any (fun p => p.isPrefixOf line) || line.isEmpty
+
+def readMeta (sep : Char) (stops : List Str) : List Str → MetaRead
+  | [] => .read [] []
+  | l :: ls =>
+    if stopsAt stops (stripR l) then .read [] (l :: ls)
+    else match decodeLine sep (stripR l) with
+      | none => .refused
+      | some kv =>
+        match readMeta sep stops ls with
+        | .refused => .refused
+        | .read es rest => .read (kv :: es) rest
+
+/-- the text the writer produces for the metadata entries -/
+def writeMeta (sep : Char) (entries : List (Str × Str)) : Str :=
+  entries.flatMap fun kv => encodeLine sep kv.1 kv.2 ++ ['\n']
+
+/-- the lines of a text (`readline()` until the end) -/
+def docLines (s : Str) : List Str := splitOn '\n' s
 
 /-! ### `_to_string` / `_from_list`: flat sequences of numbers
 
